@@ -18,7 +18,7 @@ from ..core import rule, AnalysisError
 from ..engine import rx, cfg as cfgmod, flow
 from ..engine import pattern as P
 from ..engine.facts import dotted, const, src, walk_func, str_value, enclosing_stmt, ancestors
-from .common import calls, stmt_nodes, contains, pn, access_paths, assigned_from, branch_paths, resolve, resolve_deep, sym_cases
+from .common import calls, stmt_nodes, contains, pn, access_paths, assigned_from, branch_paths, resolve, resolve_deep, sym_cases, lexer_side_scanner, scan_loop_of
 
 CURSOR = ("match_position", "lineno", "matched_lineno", "matched_charpos")
 
@@ -910,10 +910,11 @@ def scanner_loops(ctx):
     """the line scanners the lexer runs over every <% %> block (and the printer over every emitted block) shorten the line on every trip round their loop: they terminate on every input"""
     db = ctx.db
     for q, helper in (("pygen.adjust_whitespace.in_multi_line", "match"), ("pygen.PythonPrinter._in_multi_line", None)):
-        fn = db.func(q)
-        line = pn(fn, 0 if q.endswith(".in_multi_line") and "PythonPrinter" not in q else 1)
-        loops = [n for n in walk_func(fn) if isinstance(n, ast.While) and isinstance(n.test, ast.Name) and n.test.id == line]
-        ctx.require(len(loops) == 1, "%s: `while %s:` loop not found" % (q, line))
+        fn = db.func(q) if "PythonPrinter" in q else lexer_side_scanner(db)
+        lp_ = scan_loop_of(fn)
+        ctx.require(lp_ is not None, "%s: `while <line>:` loop not found" % q)
+        line = lp_.test.id
+        loops = [lp_]
         h = [f for f in fn.body if isinstance(f, ast.FunctionDef) and f.name == helper] if helper else []
         if helper and not h:
             helper = None  # the helper was unfolded into the loop (or never existed): the loop is followed directly
